@@ -40,7 +40,16 @@ func (c *Config) CountField(name string, opts ...Option) (int, error) {
 	}
 
 	if v, ok := c.fields.get(name); ok {
-		return v.Len(makeOptions(opts))
+		n, err := v.Len(makeOptions(opts))
+		if err != nil {
+			// errors resolving dynamic values are reported like by the getters
+			if _, typed := err.(Error); !typed {
+				ctx := v.Context()
+				err = raisePathErr(err, v.meta(), "", ctx.path("."))
+			}
+			return n, err
+		}
+		return n, nil
 	}
 	return -1, raiseMissing(c, name)
 }
